@@ -202,7 +202,9 @@ LANGNOTE = ("Relative to R3,R4,R6,R7 about re, CPython's parser as reader of the
 CHECKS["C15"] = dict(
   category="exploration",
   text="Bounded in (start, end), complete in the text: for each pair of a stated finite set (edge values 0,1,5,9,10,11,19,20,99,100,"
-       "101,109,123,199,900,999,1000 and 2^31-1; thorough adds all pairs < 60 and random pairs < 10^6) the real constructor is run "
+       "101,109,123,199,900,999,1000 and 2^31-1, plus a digit-pattern covering: every combination of the kinds of digit pair __integer "
+       "distinguishes - (0,9), start digit below / above the end digit, equal - over three positions, four in the thorough tier; "
+       "thorough adds all pairs < 60 and random pairs < 10^6) the real constructor is run "
        "and the emitted regex's language of possible matches IN EVERY CONTEXT is proved equal to 'canonical numeral of [start,end], "
        "not glued to a word character' (extensible: preceded by a non-digit) by regular-language inclusion in both directions; sign "
        "variants likewise. __Integer.__integer itself (digit loop building nested look-behinds) is outside the solvers' reach for "
